@@ -171,17 +171,22 @@ META = {
     ),
     "C11": dict(
         claimed=True, level="other",
-        technique="contract-based deductive verification of Note.transpose and the octave operations; container-level lifting by bounded driver",
+        technique="contract-based deductive verification of Note.transpose, the octave operations and their lifting to containers, bars and tracks of small shapes; long histories by bounded driver",
         level_text="Proved: Note.transpose for every unmixed name with up to FOUR accidentals (the statement asks for two), every "
                    "octave, every shorthand with up to two accidentals whose size is 0..11, up and down: pitch number moves by "
                    "exactly the size, the letter is the one the interval number requires, the accidental count is exact, and the "
                    "octave is adjusted; up-then-down restores name and octave (lemma, executed through the real transpose body); "
                    "change_octave/octave_up/octave_down never go below 0; Note.augment/diminish move the pitch by one and keep the "
-                   "letter. NOT proved: that NoteContainer/Bar/Track transpose/augment/diminish apply the note operation to every "
-                   "note and leave rests, durations and beats untouched (loops over heap lists of objects) - bounded driver.",
+                   "letter. Lifting: NoteContainer.transpose/augment/diminish (0..3 distinct notes) keep the same note objects in "
+                   "order and move EVERY note by exactly the amount (through the note contracts); Bar.transpose/augment/"
+                   "diminish (bars of 0..3 entries) call the container operation on the container of every sounding entry, "
+                   "exactly once, in order, with the same arguments, and nothing for rests; Track.transpose/augment/diminish "
+                   "(0..2 bars) do the same for every bar and return the track (event views). NOT proved: tracks built by "
+                   "from_chords that share one container between two entries (known finding), longer bars and tracks - "
+                   "bounded driver.",
         level_note=TB + " Object parameters are assumed distinct objects.",
-        explanation="Deductive: Note.transpose, change_octave, octave_up, octave_down, augment, diminish, lemma c11_up_then_down. "
-                    "Bounded: container-level lifting via bounded/drivers/C11.py.",
+        explanation="Deductive: Note.transpose, change_octave, octave_up, octave_down, augment, diminish, lemma c11_up_then_down; "
+                    "NoteContainer / Bar / Track transpose, augment, diminish. Bounded: bounded/drivers/C11.py.",
     ),
     "C18": dict(
         claimed=True, level="other",
